@@ -282,7 +282,7 @@ theorem forces_history_grand (inplace : Bool) (sim : Sim) (he : sim.ens = .grand
   | cons t ts ih =>
     obtain ⟨hk, hrest⟩ := hok
     have hg' : GInv sim (withInp s.cs t.inp).m :=
-      ⟨⟨hg.invg.1, hg.invg.2, hg.invg.3, hg.invg.4, hg.invg.5, hg.invg.6⟩, hg.delta0, hg.aligned, hg.templ⟩
+      ⟨⟨hg.invg.1, hg.invg.2, hg.invg.3, hg.invg.4, hg.invg.5, hg.invg.6, hg.invg.7⟩, hg.delta0, hg.aligned, hg.templ⟩
     have h' : AInv { s with cs := withInp s.cs t.inp } := ⟨⟨h.einv.1, h.einv.2, h.einv.3⟩, h.ref, h.last⟩
     obtain ⟨h1, h2, h3⟩ := trial_hyps_G sim he t (withInp s.cs t.inp).m hg' hk
     obtain ⟨g1, g2, g3⟩ := ainv_trial_of inplace sim t.tree t.verdict { s with cs := withInp s.cs t.inp } h' h1 h2 h3
